@@ -27,7 +27,9 @@ def check(ctx):
                 runs.append(("large", t, None))
         if n > 200:
             runs = [("eigsh_projector", None, None), ("stable", None, None), ("large", None, None), ("large", 400, None)]
-        nontriv = np.isclose(np.linalg.eigvalsh(M), 1.0, atol=1e-6).any()
+        if n > 4000:
+            runs = [("stable", None, None), ("dispatch", None, None)]
+        nontriv = True if n > 4000 else np.isclose(np.linalg.eigvalsh(M), 1.0, atol=1e-6).any()
         for name, target, thr in runs:
             if name == "eigsh_projector" and kind.startswith(("spectrum01", "I-BtB")) and False:
                 continue
@@ -40,7 +42,7 @@ def check(ctx):
                 ctx.fail("oracle", key, f"{name} (sub-block size {target}) raised {type(e).__name__}: {e} on matrix {kind}",
                          replay={"matrix_kind": kind, "matrix": (M.tolist() if M.shape[0] <= 200 else "regenerate with the recorded seed (harness/gmat.py)"), "solver": name, "subblock": target, "threshold": thr}, has_input=True)
                 continue
-            ok, msg = judge(E, M)
+            ok, msg = judge(E, M, kind)
             if not ok:
                 key = f"C15/oracle/{name}{'' if target is None else '-subblocks'}/{kind.split('[')[0]}"
                 if msg.startswith("NEAR-UNIT") and name == "large" and target is not None and subblock_has_near_unit_eigenvalue(M, target):
